@@ -275,6 +275,25 @@ func c19Relaxation(c *Ctx, r *R) {
 		walk(v, ret.Block(), 0)
 		r.Check(okAll, "flag-only-on-relaxed-edge", pos(ret), "'signature needed' is true only on the Threshold()-1 edge", "the 'RSL signature needed' flag can be true without the count having met Threshold()-1 on the relaxed edge")
 	}
+	// conversely: accepting on the relaxed edge sets the flag — somewhere behind a gem1 edge the flag's
+	// variable is assigned the constant true (otherwise 'possible, signature needed' is reported as
+	// 'possible, no further signature needed')
+	for _, ret := range eng.Returns(uv) {
+		if eng.ClassifyErr(eng.RetErr(ret), ret.Block()) == eng.ErrNonNil {
+			continue
+		}
+		set := false
+		for _, a := range eng.Assignments(ret.Results[2]) {
+			if b, isC := eng.ConstBool(a.Val); isC && b && a.At != nil {
+				for _, e := range gem1 {
+					if eng.EdgeDominates(e, a.At) {
+						set = true
+					}
+				}
+			}
+		}
+		r.Check(set, "flag-set-on-relaxed-edge", pos(ret), "accepting on the Threshold()-1 edge reports 'signature needed'", "the relaxed acceptance (count >= Threshold()-1) does not set the 'RSL signature needed' flag: the prediction would say no further signature is needed")
+	}
 	// relaxed test only after the full test failed: gem1's block is reachable only via the false edge of count >= Threshold()
 	ge := eng.RelEdges(uv, token.LSS, cnt, thr)
 	for _, e := range gem1 {
